@@ -69,6 +69,16 @@ func (b *body) Close() error { return b.rc.Close() }
 
 var principals = [nS]interface{}{"P1", "P2", "P3"}
 
+// zeroPrincipals: non-nil principals that are the zero value of their type (a principal is "non-nil", not "non-zero")
+var zeroPrincipals = [nS]interface{}{"", 0, false}
+
+func principalOf(naming uint8, s int) interface{} {
+	if naming == nameZeroPrincipals {
+		return zeroPrincipals[s]
+	}
+	return principals[s]
+}
+
 var rejErr = [nS]error{
 	oaerrors.New(401, tagName[tRej1]),
 	oaerrors.New(403, tagName[tRej2]),
@@ -86,10 +96,13 @@ func decide(naming uint8, s int, cred string, required []string) (bool, interfac
 	case "":
 		return false, nil, nil
 	case "ok":
-		return true, principals[s], nil
+		return true, principalOf(naming, s), nil
 	case "nil":
 		return true, nil, nil
 	case "rej":
+		if naming == nameRejWithPrincipal {
+			return true, principalOf(naming, s), rejErr[s] // an error is a rejection whatever comes with it
+		}
 		return true, nil, rejErr[s]
 	case "oks":
 		for _, sc := range required {
@@ -97,7 +110,7 @@ func decide(naming uint8, s int, cred string, required []string) (bool, interfac
 				return true, nil, scopeErr[s]
 			}
 		}
-		return true, principals[s], nil
+		return true, principalOf(naming, s), nil
 	}
 	return true, nil, rejErr[s]
 }
@@ -217,7 +230,7 @@ var authorizer = runtime.AuthorizerFunc(func(r *http.Request, principal interfac
 	case "deny418":
 		return errAz418
 	case "denyP1":
-		if principal == principals[0] {
+		if principal == principals[0] || principal == zeroPrincipals[0] {
 			return errAzPlain
 		}
 	case "denyNil":
@@ -736,8 +749,8 @@ func princIndex(p interface{}) int {
 	if p == nil {
 		return 0
 	}
-	for i, q := range principals {
-		if p == q {
+	for i := range principals {
+		if p == principals[i] || p == zeroPrincipals[i] {
 			return i + 1
 		}
 	}
